@@ -300,6 +300,11 @@ def check(model, rep, tier):
             'every new temporary must use an index that was incremented first',
             line=gs.node.lineno, witness='two temporaries in one statement')
 
+  # ---------------------------------------------------------------- dependencies
+  rep.depends('C17', ['TREE-COPY'],
+              'every hoisted `tmp = expr` is built by templates.replace, which '
+              'copies expr with copy_clean')
+
 
 def _branch_raises(g, test, label):
   for b, l in g.succ[test]:
